@@ -275,6 +275,9 @@ PROPS["C12"] = {
     "assumptions": ["actual requests are well-formed for their protocol (GET only with Connect; gRPC sends te: trailers)",
                     "the timeout header is looked up by the EXPECTED protocol (as the runner configures it)"],
     "units": [
+        # deviating requests of several test cases checked at the same time, feedback through the real stderr printer
+        {"name": "C12Concurrent", "pkg": RS, "test": "TestVerifC12Concurrent", "kind": "rapid",
+         "checks": {"quick": 300, "thorough": 5000}, "shards": {"quick": 2, "thorough": 8}},
         {"name": "C12Matrix", "pkg": RS, "test": "TestVerifC12Matrix", "kind": "enum",
          "shards": {"quick": 8, "thorough": 16}, "env_tier": {"quick": {"VERIF_C12_STRIDE": 1}, "thorough": {"VERIF_C12_STRIDE": 1}}},
         {"name": "C12Extras", "pkg": RS, "test": "TestVerifC12Extras", "kind": "rapid",
@@ -304,6 +307,9 @@ PROPS["C13"] = {
          "checks": {"quick": 15000, "thorough": 200000}, "shards": {"quick": 2, "thorough": 8}},
         {"name": "C13E2E", "pkg": RC, "test": "TestVerifC13E2E", "kind": "rapid",
          "checks": {"quick": 1500, "thorough": 15000}, "shards": {"quick": 2, "thorough": 8}},
+        # wire content served by the reference server's raw-response feature, seen through the real client and tracer
+        {"name": "C13RawE2E", "pkg": RC, "test": "TestVerifC13RawE2E", "kind": "rapid",
+         "checks": {"quick": 600, "thorough": 8000}, "shards": {"quick": 2, "thorough": 8}},
         {"name": "C13Fuzz", "pkg": RC, "test": "FuzzVerifC13Examiners", "kind": "fuzz", "fuzz_target": "FuzzVerifC13Examiners",
          "only_tiers": ["thorough"], "fuzztime": {"thorough": "90s"}, "workers": 16, "timeout": {"thorough": 900}},
     ],
